@@ -61,19 +61,21 @@ type replyBeh struct {
 }
 
 type proxy struct {
-	mu        sync.Mutex
-	ln        net.Listener
-	addr      string
-	upstream  string // "" = the nsqlookupd behind the proxy is down
-	accept    []string
-	reply     []replyBeh
-	garbage   []byte // non-nil: raw stub mode, every connection gets these bytes and is closed
+	mu           sync.Mutex
+	ln           net.Listener
+	addr         string
+	upstream     string // "" = the nsqlookupd behind the proxy is down
+	accept       []string
+	reply        []replyBeh
+	garbage      []byte              // non-nil: raw stub mode, every connection gets these bytes and is closed
+	acceptAll    string              // "close": every new connection is accepted then closed (after the accept script)
+	replyAll     *replyBeh           // non-nil: every reply is treated this way (after the reply script)
 	identRewrite func([]byte) []byte // rewrites the body of the first reply of a connection (IDENTIFY)
-	conns     map[net.Conn]struct{}
-	nAccepted int
-	nFrames   int
-	nInjected int
-	closed    bool
+	conns        map[net.Conn]struct{}
+	nAccepted    int
+	nFrames      int
+	nInjected    int
+	closed       bool
 }
 
 func newProxy() (*proxy, error) {
@@ -175,6 +177,31 @@ func (p *proxy) clearScripts() {
 	p.mu.Unlock()
 }
 
+// persistent faults (until the end of the case)
+func (p *proxy) setAcceptAll(k string) {
+	p.mu.Lock()
+	p.acceptAll = k
+	p.mu.Unlock()
+}
+func (p *proxy) setReplyAll(b *replyBeh) {
+	p.mu.Lock()
+	p.replyAll = b
+	p.mu.Unlock()
+}
+
+// stopListening: from now on every connection attempt is refused; open connections are cut
+func (p *proxy) stopListening() {
+	p.mu.Lock()
+	ln := p.ln
+	p.mu.Unlock()
+	ln.Close()
+	p.dropConns()
+}
+func (p *proxy) accepted() int { p.mu.Lock(); defer p.mu.Unlock(); return p.nAccepted }
+func (p *proxy) frames() int   { p.mu.Lock(); defer p.mu.Unlock(); return p.nFrames }
+func (p *proxy) injected() int { p.mu.Lock(); defer p.mu.Unlock(); return p.nInjected }
+func (p *proxy) nConns() int   { p.mu.Lock(); defer p.mu.Unlock(); return len(p.conns) }
+
 func (p *proxy) track(c net.Conn, on bool) {
 	p.mu.Lock()
 	if on {
@@ -195,6 +222,8 @@ func (p *proxy) handle(c net.Conn) {
 	if len(p.accept) > 0 {
 		beh = p.accept[0]
 		p.accept = p.accept[1:]
+	} else if p.acceptAll != "" {
+		beh = p.acceptAll
 	}
 	up := p.upstream
 	p.mu.Unlock()
@@ -246,6 +275,10 @@ func (p *proxy) handle(c net.Conn) {
 			if len(p.reply) > 0 {
 				x := p.reply[0]
 				p.reply = p.reply[1:]
+				b = &x
+				p.nInjected++
+			} else if p.replyAll != nil {
+				x := *p.replyAll
 				b = &x
 				p.nInjected++
 			}
@@ -453,6 +486,13 @@ func (n *nsqdProc) errText() string {
 		s = s[len(s)-600:]
 	}
 	return s
+}
+
+// errContains: nsqd's log (level error) contains the text
+func (n *nsqdProc) errContains(sub string) bool {
+	n.mu.Lock()
+	defer n.mu.Unlock()
+	return strings.Contains(n.stderr.String(), sub)
 }
 
 func (n *nsqdProc) alive() bool {
